@@ -13,6 +13,7 @@
 
 struct vp_mu_ghost vp_g;
 struct vp_registry vp_reg;
+waiter vp_my_w;
 int vp_tag_C14_escalate, vp_tag_C03_wake_acq, vp_tag_C06_eval_held, vp_tag_C02_resp, vp_tag_C07_once, vp_tag_C12_sem, vp_tag_C10_cnt, vp_tag_C11_wait, vp_tag_C16_buf, vp_tag_C05_reason, vp_tag_C13_dead, vp_tag_C01_hold;
 void vp_tags_init (void) {
 	vp_tag_C14_escalate = 0; vp_tag_C03_wake_acq = 0; vp_tag_C06_eval_held = 0; vp_tag_C02_resp = 0; vp_tag_C07_once = 0; vp_tag_C12_sem = 0;
@@ -125,7 +126,8 @@ unsigned vp_mu_step (uint32_t old, uint32_t new_, struct vp_mu_ghost *g, int ord
 		g->enq_long = (new_ & MU_LONG_WAIT) != 0;
 	}
 	if (acq_lock && old_hold == VP_NONE) {
-		if (g->queued) viol |= V_QUEUED;
+		/* (a timed-out waiter that takes lock AND spinlock in one step does so in order to dequeue itself) */
+		if (g->queued && !acq_spin) viol |= V_QUEUED;
 		g->waited = 0;   /* no longer a waiter */
 	}
 	/* C16: a pure observer may take and release the spinlock and nothing else */
@@ -249,6 +251,16 @@ static void waiting_store (nsync_atomic_uint32_ *p, uint32_t v, int order) {
 	}
 	*p = v;
 }
+
+#ifdef VP_RG_MU
+int vp_condition (const void *arg) {
+	(void) arg;
+	VP_ASSERT (vp_g.hold != VP_NONE, "C06: a condition is only ever evaluated by a thread that holds the mutex");
+	vp_g.cond_evals++;
+	vp_g.last_cond = vp_nondet_bool ();
+	return vp_g.last_cond;
+}
+#endif
 
 /* ------------------------------------------------------------------ */
 /* dispatch                                                             */
